@@ -175,7 +175,10 @@ theorem BalBound.transfer {w : Evm.World} (h : BalBound w) {a b v : Nat} (hv : v
       omega
 
 /-- the bound for the running world and for the worlds saved by the suspended callers (a failing callee hands its
-    caller's world back) -/
-def BBAll (w : Evm.World) (kcs : List CCont) : Prop := BalBound w ∧ ∀ kc ∈ kcs, BalBound kc.w
+    caller's world back) — required only under the condition `C` (balances are followed) -/
+def BBAllT (w : Evm.World) (kcs : List CCont) : Prop := BalBound w ∧ ∀ kc ∈ kcs, BalBound kc.w
+
+/-- … required only under the condition `C` (balances are followed) -/
+def BBAll (C : Prop) (w : Evm.World) (kcs : List CCont) : Prop := C → BBAllT w kcs
 
 end HalmosVerif.Lemmas.Sevm
